@@ -250,6 +250,45 @@ func init() {
 		}
 		return smt.BVC(64, reflectKind(v.T))
 	})
+	reg("(reflect.Value).Len", func(m *M, fn *ssa.Function, a []Value, r ssa.Value) Value {
+		v := a[0].(RValueV)
+		switch x := m.rvalCurrent(v).(type) {
+		case SliceV:
+			return smt.BVC(64, uint64(x.Len))
+		case *ArrayV:
+			return smt.BVC(64, uint64(len(x.E)))
+		case StrV:
+			return m.strLen(x)
+		case MapV:
+			if x.Obj == 0 {
+				return smt.BVC(64, 0)
+			}
+			return smt.BVC(64, uint64(len(m.st.Heap[x.Obj].(*MapData).E)))
+		}
+		panic(execPanic{msg: "reflect: call of reflect.Value.Len on unsupported Value"})
+	})
+	reg("(reflect.Value).Index", func(m *M, fn *ssa.Function, a []Value, r ssa.Value) Value {
+		v := a[0].(RValueV)
+		i := constInt(a[1])
+		switch x := m.rvalCurrent(v).(type) {
+		case SliceV:
+			if i < 0 || i >= x.Len {
+				panic(execPanic{msg: "reflect: slice index out of range"})
+			}
+			p := PtrV{Obj: x.Obj, Path: pathAppend(x.Path, x.Off+i)}
+			return RValueV{T: under(v.T).(*types.Slice).Elem(), Addr: &p}
+		case *ArrayV:
+			if i < 0 || i >= len(x.E) {
+				panic(execPanic{msg: "reflect: array index out of range"})
+			}
+			if v.Addr != nil {
+				p := PtrV{Obj: v.Addr.Obj, Path: pathAppend(v.Addr.Path, i)}
+				return RValueV{T: under(v.T).(*types.Array).Elem(), Addr: &p}
+			}
+			return RValueV{T: under(v.T).(*types.Array).Elem(), Val: x.E[i]}
+		}
+		panic(execPanic{msg: "reflect: call of reflect.Value.Index on unsupported Value"})
+	})
 	reg("(reflect.Value).IsNil", func(m *M, fn *ssa.Function, a []Value, r ssa.Value) Value {
 		v := a[0].(RValueV)
 		switch x := m.rvalCurrent(v).(type) {
